@@ -28,7 +28,10 @@ def run(rep, tier, seed, replay):
         r = json.load(open(replay))["replay"]
         res, _ = idlfaults.run([{"id": 0, "text": r["text"]}], "replay")
         c.log("replay:", json.dumps(res[0])[:1000])
-        if res[0]["res"] not in ("ok", "err", "not_utf8"):
+        if res[0]["res"] == "panic":
+            rep.violation({"check": "panic", "where": where_of(res[0].get("loc")), "msg": re.sub(r"\d+", "N", res[0]["msg"])[:100], "replay": True},
+                          dict(r, observed_now=res[0]))
+        elif res[0]["res"] not in ("ok", "err", "not_utf8"):
             rep.violation({"check": res[0]["res"], "replay": True}, dict(r, observed_now=res[0]))
         rep.cov = {"evaluations": 1, "distinct_nontrivial": 1, "rule": "replay of one recorded text", "samples": [r["text"][:200]]}
         return "fault_enumeration"
